@@ -147,6 +147,8 @@ Theorem C03_wrong_key_kind_error : forall e t obj,
   (forall i nt, lookup_type (tx_all t) obj = Some OText -> step e t (CPutObj obj (PSeq i) nt) = EErr EInvalidOp) /\
   (forall i z, lookup_type (tx_all t) obj = Some OMap -> step e t (CInc obj (PSeq i) z) = EErr EInvalidOp) /\
   (forall i, lookup_type (tx_all t) obj = Some OMap -> step e t (CDelete obj (PSeq i)) = EErr EInvalidOp) /\
+  (forall k, lookup_type (tx_all t) obj = Some OList -> step e t (CDelete obj (PMap k)) = EErr EInvalidOp) /\
+  (forall k, lookup_type (tx_all t) obj = Some OText -> step e t (CDelete obj (PMap k)) = EErr EInvalidOp) /\
   (forall i d s, lookup_type (tx_all t) obj = Some OList -> step e t (CSpliceText obj i d s) = EErr EInvalidOp).
 Proof. exact wrong_key_kind_error. Qed.
 
@@ -160,6 +162,12 @@ Theorem C03_index_out_of_range_error : forall e t obj i,
   (forall v, step e t (CInsert obj (i + 1) v) = EErr EInvalidIndex) /\
   (forall nt, step e t (CInsertObj obj (i + 1) nt) = EErr EInvalidIndex).
 Proof. exact index_out_of_range_error. Qed.
+
+Theorem C03_text_delete_out_of_range_error : forall e t obj i,
+  lookup_type (tx_all t) obj = Some OText ->
+  seq_width e OText (seq_elems (tx_all t) obj) <= i ->
+  step e t (CDelete obj (PSeq i)) = EErr EInvalidIndex.
+Proof. exact text_delete_out_of_range_error. Qed.
 
 Theorem C03_increment_non_counter_error : forall e t obj k z,
   lookup_type (tx_all t) obj = Some OMap ->
